@@ -304,17 +304,23 @@ func runMerkle(s *Session, ops []merkleOp) {
 				var err error
 				lr := io.LimitReader(tr, int64(op.short))
 				mode := cs[0].which % 3
-				switch {
-				case op.short == rhp4.SectorSize && mode == 0:
-					var data *[rhp4.SectorSize]byte
-					gotRoot, data, err = rhp4.ReadSector(lr)
-					if err == nil && !bytes.Equal(data[:], got.Bytes()) {
-						bad("read-sector-data", "ReadSector returned different sector data than arrived")
+				if pn := guardPanic(func() {
+					switch {
+					case op.short == rhp4.SectorSize && mode == 0:
+						var data *[rhp4.SectorSize]byte
+						gotRoot, data, err = rhp4.ReadSector(lr)
+						if err == nil && !bytes.Equal(data[:], got.Bytes()) {
+							bad("read-sector-data", "ReadSector returned different sector data than arrived")
+						}
+					case op.short == rhp4.SectorSize && mode == 1:
+						gotRoot, err = rhp4.ReadSectorRoot(lr)
+					default:
+						gotRoot, err = rhp4.ReaderRoot(lr)
 					}
-				case op.short == rhp4.SectorSize && mode == 1:
-					gotRoot, err = rhp4.ReadSectorRoot(lr)
-				default:
-					gotRoot, err = rhp4.ReaderRoot(lr)
+				}); pn != "" {
+					// whatever the connection did to the stream, a reader answers with a root or an error
+					bad("reader-root-panic", "streaming root of %d bytes (delivery %s) panicked: %s", op.short, s.plan.chunk, pn)
+					return
 				}
 				if err != nil {
 					if !s.anyFault() {
@@ -341,7 +347,12 @@ func runMerkle(s *Session, ops []merkleOp) {
 				}
 			case "read-range":
 				v := rhp4.NewRangeProofVerifier(op.start, op.end)
-				if _, err := v.ReadFrom(tr); err != nil {
+				var rerr error
+				if pn := guardPanic(func() { _, rerr = v.ReadFrom(tr) }); pn != "" {
+					bad("reader-root-panic", "RangeProofVerifier.ReadFrom over [%d,%d) (delivery %s) panicked: %s", op.start, op.end, s.plan.chunk, pn)
+					return
+				}
+				if err := rerr; err != nil {
 					if !s.anyFault() {
 						bad("range-read-error", "RangeProofVerifier.ReadFrom failed: %v", err)
 					}
